@@ -22,6 +22,9 @@ ASSUME \A c \in Configs : PrintT(<<"CFG", c[1], c[2], "plain">>)
 ASSUME /\ CompactOK(12, 8) /\ PrintT(<<"CFG", 12, 8, "compact_promo64">>)
        /\ Admissible(12, 32) /\ PrintT(<<"CFG", 12, 32, "promo32">>)
        /\ Admissible(12, 8) /\ PrintT(<<"CFG", 12, 8, "promo16_max3700">>)
+\* a declared maximum length selects the type that carries every length argument: limits on both sides of
+\* the 8-bit boundary, exercised with arrays filled to exactly the limit
+ASSUME \A m \in {"max255", "max256", "max257"} : Admissible(12, 8) /\ PrintT(<<"CFG", 12, 8, m>>)
 ASSUME Cardinality(Configs) >= 80
 
 Cap == 6
